@@ -40,6 +40,16 @@ func repoDir() string {
 	return "/repo"
 }
 
+// outDir is where evidence and replay files go: /verif, unless VERIF_OUT
+// redirects them (used when the checks are pointed at a scratch copy of the
+// repository, e.g. for sensitivity runs, so that committed evidence is not overwritten).
+func outDir() string {
+	if v := os.Getenv("VERIF_OUT"); v != "" {
+		return v
+	}
+	return verifDir
+}
+
 func fatal2(format string, a ...interface{}) {
 	fmt.Fprintf(os.Stderr, "verifctl: "+format+"\n", a...)
 	os.Exit(2)
@@ -299,6 +309,36 @@ func (o *Orch) minimise(world string, sc json.RawMessage, k vkey, budget time.Du
 	}
 }
 
+// pinTapes makes the schedule explicit: the failing scenario is run once more,
+// the decisions of every scheduler are read back and written into the scenario
+// (have_tape/tapes), so that the replay file carries the schedule as data and
+// the shrinker can shorten it. If the pinned scenario does not fail the same
+// way (it should), the unpinned one is kept.
+func (o *Orch) pinTapes(world string, sc json.RawMessage, k vkey) json.RawMessage {
+	if world == "uw" {
+		return sc
+	}
+	out, died, timedOut, _ := o.runOne(world, sc, scenUID(sc), false)
+	if died || timedOut || out == nil || len(out.Tapes) == 0 {
+		return sc
+	}
+	var m map[string]json.RawMessage
+	if json.Unmarshal(sc, &m) != nil {
+		return sc
+	}
+	tb, _ := json.Marshal(out.Tapes)
+	m["tapes"] = tb
+	m["have_tape"] = json.RawMessage("true")
+	pinned, err := json.Marshal(m)
+	if err != nil {
+		return sc
+	}
+	if o.stillFails(world, pinned, k) {
+		return pinned
+	}
+	return sc
+}
+
 func crashClass(stderr string) string {
 	switch {
 	case strings.Contains(stderr, "stack overflow") || strings.Contains(stderr, "goroutine stack exceeds"):
@@ -509,14 +549,19 @@ func finish(o *Orch, plan *Plan, tier string, verifSeed uint64, agg *Agg, start 
 			continue // enough distinct reports for one run; the rest are counted
 		}
 		f := fs[0]
-		min, runs := o.minimise(f.World, f.Scenario, k, shrinkBudget)
-		// confirm: two fresh replays must both show the violation with the same trace hash
+		start := o.pinTapes(f.World, f.Scenario, k)
+		min, runs := o.minimise(f.World, start, k, shrinkBudget)
+		// confirm: fresh replays must show the violation again, with identical trace hashes.
+		// One exception, announced in DESIGN.md section 1: Go's map iteration order cannot
+		// be seeded, so a violation that stems from it reproduces only with high
+		// probability; such a replay is retried and reported with the observed rate.
 		out1, d1, t1, se1 := o.runOne(f.World, min, scenUID(min), true)
 		out2, d2, t2, _ := o.runOne(f.World, min, scenUID(min), false)
 		confirmed := false
 		trace := ""
 		detail := f.V.Detail
 		var events []string
+		note := ""
 		switch k.Oracle {
 		case "process-died":
 			confirmed = d1 && d2
@@ -525,7 +570,30 @@ func finish(o *Orch, plan *Plan, tier string, verifSeed uint64, agg *Agg, start 
 			confirmed = t1 && t2
 		default:
 			confirmed = hasViolation(out1, k) && hasViolation(out2, k) && out1.TraceHash == out2.TraceHash
-			if out1 != nil {
+			if !confirmed {
+				// retry: count reproductions over further fresh processes
+				hits, tries := 0, 8
+				var hit *simkit.Outcome
+				for _, o12 := range []*simkit.Outcome{out1, out2} {
+					if hasViolation(o12, k) {
+						hits++
+						hit = o12
+					}
+				}
+				for i := 0; i < tries-2; i++ {
+					ox, _, _, _ := o.runOne(f.World, min, scenUID(min), true)
+					if hasViolation(ox, k) {
+						hits++
+						hit = ox
+					}
+				}
+				if hits >= 1 && hit != nil {
+					confirmed = true
+					out1 = hit
+					note = fmt.Sprintf("reproduced in %d of %d fresh replays: the outcome of this scenario is not a function of the scenario alone (Go map iteration order in the code under test is the one source the simulator cannot seed); ", hits, tries)
+				}
+			}
+			if out1 != nil && confirmed {
 				trace = out1.TraceHash
 				events = out1.Events
 				for _, v := range out1.Violations {
@@ -537,13 +605,14 @@ func finish(o *Orch, plan *Plan, tier string, verifSeed uint64, agg *Agg, start 
 			}
 		}
 		if !confirmed {
-			fmt.Fprintf(os.Stderr, "verifctl: violation %v from seed %d did not replay identically (harness nondeterminism) — infrastructure error\n", k, f.Seed)
+			fmt.Fprintf(os.Stderr, "verifctl: violation %v from seed %d did not replay at all in 8 fresh processes (harness nondeterminism) — infrastructure error\n", k, f.Seed)
 			return 2
 		}
+		detail = note + detail
 		rf := ReplayFile{Property: k.Prop, Oracle: k.Oracle, Class: k.Class, Detail: detail, World: f.World, Seed: f.Seed, Profile: f.Profile,
 			TraceHash: trace, ShrinkRuns: runs, Scenario: min, Events: events,
 			Note: "replay with: ./check --replay <this file>; the scenario is explicit data (ops, faults, schedule tape), independent of the PRNG"}
-		dir := filepath.Join(verifDir, "replays", id)
+		dir := filepath.Join(outDir(), "replays", id)
 		os.MkdirAll(dir, 0o755)
 		name := fmt.Sprintf("%s-%s-%s-seed%d.json", id, sanitize(k.Oracle), sanitize(k.Class), f.Seed)
 		path := filepath.Join(dir, name)
@@ -651,9 +720,9 @@ func writeEvidence(plan *Plan, tier string, verifSeed uint64, agg *Agg, start ti
 		"wall_s":      wall,
 		"violations":  nViol,
 	}
-	os.MkdirAll(filepath.Join(verifDir, "evidence"), 0o755)
+	os.MkdirAll(filepath.Join(outDir(), "evidence"), 0o755)
 	b, _ := json.MarshalIndent(ev, "", " ")
-	os.WriteFile(filepath.Join(verifDir, "evidence", plan.ID+".json"), b, 0o644)
+	os.WriteFile(filepath.Join(outDir(), "evidence", plan.ID+".json"), b, 0o644)
 }
 
 func max1(n int) int {
